@@ -50,7 +50,9 @@ class C13:
             "cvrp/sdvrp/op/pctsp/spctsp/cvrptw/mtvrp) x 1-3 generator instances x scorer (state-keyed scripted "
             "decoder gaussian|ties, or tiny real AttentionModel in eval mode) x beam width drawn from 2..number "
             "of start nodes x temperature {0.5,1,2} x tanh clipping {0,10} x select_best on/off; one real "
-            "beam search (plus one with select_best, plus one evaluate replay of all beams).  Non-trivial = "
+            "beam search (plus one with select_best, plus one evaluate replay of all beams).  One run in 500 (thorough: "
+            "in 100) is a scale fault: a stacked TSP-6 batch with (width-1) x batch just above 2**15, eight sampled "
+            "instances re-decoded in a small batch must give the same beams.  Non-trivial = "
             "some kept beam changed parent (a slot continued another slot's prefix) or beams finished at "
             "different steps; distinct = distinct event-log digest.")
     components_real = ["rl4co.utils.decoding.BeamSearch (pre_decoder_hook, _make_beam_step, _step re-indexing, "
@@ -82,6 +84,14 @@ class C13:
     def make_plan(run_seed: int, tier: str) -> dict:
         st = Streams(run_seed)
         rc = st.get("config")
+        if rc.random() < (0.002 if tier != "thorough" else 0.01) and "tsp" in E.only_filter(ENVS):
+            # "scale fault": a stacked batch so large that (width - 1) * batch passes 2**15 -- what an evaluation
+            # over a few thousand instances produces.  The beams of an instance must not depend on the batch size.
+            w = rc.choice([3, 5])
+            return {"big": True, "cfg": {"env": "tsp", "n": 6, "kw": {}, "gen": {"num_loc": 6}}, "width": w,
+                    "B": 32768 // (w - 1) + rc.randint(1, 60), "instances": [], "inst_seed": rc.randrange(1 << 30),
+                    "scorer": {"kind": "scripted", "mode": "gaussian", "seed": rc.randrange(1 << 30)},
+                    "select_best": False, "temperature": 1.0, "tanh": 0, "width_frac": 0.0, "width_max": False}
         use_am = rc.random() < 0.25
         pool = E.only_filter(AM_ENVS if use_am else ENVS)
         name = pool[rc.randrange(len(pool))]
@@ -115,12 +125,16 @@ class C13:
     @staticmethod
     def sample(run):
         p = run.plan
+        if p.get("big"):
+            return {"env": p["cfg"], "B": p["B"], "width": p["width"], "big": True, "outcome": getattr(run, "outcome", None)}
         return {"env": p["cfg"], "B": len(p["instances"]), "scorer": p["scorer"],
                 "knobs": {k: p[k] for k in ("width_frac", "width_max", "temperature", "tanh", "select_best")},
                 "instance0": p["instances"][0], "outcome": getattr(run, "outcome", None)}
 
     @staticmethod
     def shrink(plan):
+        if plan.get("big"):
+            return
         if len(plan["instances"]) > 1:
             for i in range(len(plan["instances"])):
                 p = copy.deepcopy(plan)
@@ -142,6 +156,8 @@ class C13:
         from rl4co.utils.ops import batchify
 
         plan = run.plan
+        if plan.get("big"):
+            return _exec_big(run)
         cfg = plan["cfg"]
         name = cfg["env"]
         rows = [E.dec_row(r) for r in plan["instances"]]
@@ -600,3 +616,55 @@ C13.CANARIES = {
     "select_best_layout": _canary_select_best_layout,
     "select_best_min": _canary_select_best_min,
 }
+
+
+# --------------------------------------------------------------------------------------------------
+# scale fault: one very large stacked batch; sampled instances re-decoded in a small batch must give the same beams
+# --------------------------------------------------------------------------------------------------
+def _exec_big(run):
+    plan = run.plan
+    cfg, W, B = plan["cfg"], plan["width"], plan["B"]
+    name = cfg["env"]
+    scope = f"scripted-gaussian/{name}"
+    with run.guard(name, "construct env"):
+        env = E.make_env(cfg)
+    torch.manual_seed(plan["inst_seed"])
+    with run.guard(scope, "generator + reset (large batch)", promise=False):
+        td_all = env.generator(batch_size=[B])
+    policy = make_scripted_policy(name, "gaussian", plan["scorer"]["seed"], key="state")
+    with run.guard(scope, "policy forward decode_type=beam_search (large batch)", width=W, B=B):
+        out = policy(env.reset(td_all.clone()), env, phase="test", decode_type="beam_search", beam_width=W,
+                     select_best=False, return_actions=True, return_sum_log_likelihood=False)
+    acts = out["actions"]
+    rew = out["reward"].reshape(-1)
+    run.tick(int(acts.shape[-1]))
+    run.fault("large_stacked_batch", B * W)
+    run.probe("big_batch_beam")
+    run.nontrivial = True
+    if acts.shape[0] != B * W:
+        run.violate(scope, "beam_batch_size", f"{acts.shape[0]} beams returned for {B} instances x width {W}",
+                    constraint="count", width=W, B=B)
+        raise StopRun()
+    picks = sorted({run.chooser.pick(B, lambda: run.chooser.rng.randrange(B)) for _ in range(6)} | {0, B - 1})
+    sub = td_all[picks].clone()
+    with run.guard(scope, "policy forward decode_type=beam_search (the same instances, small batch)", width=W, B=len(picks)):
+        out2 = policy(env.reset(sub), env, phase="test", decode_type="beam_search", beam_width=W, select_best=False,
+                      return_actions=True, return_sum_log_likelihood=False)
+    a2, r2 = out2["actions"], out2["reward"].reshape(-1)
+    n = cfg["gen"]["num_loc"]
+    for k, i in enumerate(picks):
+        for j in range(W):
+            big = [int(x) for x in acts[j * B + i].tolist()]
+            small = [int(x) for x in a2[j * len(picks) + k].tolist()]
+            if sorted(big) != list(range(n)):
+                run.violate(scope, "beam_feasible", f"beam {j} of instance {i} in a batch of {B}: {big} is not a tour of "
+                            f"the {n} nodes", constraint="not_a_tour", width=W, B=B, instance=i, beam=j)
+                raise StopRun()
+            if big != small or abs(float(rew[j * B + i]) - float(r2[j * len(picks) + k])) > 1e-5:
+                run.violate(scope, "beam_batch_size", f"beam {j} of instance {i}: {big} (reward {float(rew[j * B + i])!r}) in "
+                            f"a stacked batch of {B} x {W}, but {small} (reward {float(r2[j * len(picks) + k])!r}) when "
+                            f"the instance is decoded in a batch of {len(picks)}", constraint="batch_size_dependent",
+                            width=W, B=B, instance=i, beam=j)
+                raise StopRun()
+    run.log.add("big", B, W, picks, [float(x).hex() for x in r2.tolist()][:8])
+    run.outcome = {"B": B, "W": W, "picks": picks}
